@@ -44,6 +44,14 @@ func main() {
 		xcProbe(loadCfg(os.Args[2]))
 	case "votes-edges": // votes-edges <mode>   stdin: EDGE objects of spec/Votes.tla
 		votesEdges(os.Args[2])
+	case "votes-record": // votes-record <mode> <traces> <len>
+		votesRecord(os.Args[2], atoi(os.Args[3]), atoi(os.Args[4]))
+	case "votes-steps": // votes-steps <mode> <json {addrs, init, ids}>   stdin: steps
+		var c struct{ Addrs, Init, Ids []string }
+		if err := json.Unmarshal([]byte(os.Args[3]), &c); err != nil {
+			vio.Fatal("bad config: %v", err)
+		}
+		votesSteps(os.Args[2], c.Addrs, c.Init, c.Ids)
 	default:
 		vio.Fatal("unknown command %s", os.Args[1])
 	}
